@@ -27,8 +27,9 @@ def base_models():
              "lcons": [O(20, O(28, V(0), N(2)), O(23, V(1), N(-1)))], "objs": [{"max": False, "lin": [[0, 1], [1, 1]]}]}
     nested = dict(logic, lcons=logic["lcons"] + [O(21, O(24, V(2), N(1)), O(34, O(24, V(2), N(1))))])
     noobj = dict(lp, objs=[])
+    obj2 = dict(lp, objs=lp["objs"] + [{"max": True, "lin": [[0, 2], [1, -1]]}])
     return {"ok_lp": lp, "ok_logic": logic, "infeas": infeas, "unsupported": unsup, "needbounds": needb,
-            "infeas_nested": nested, "ok_noobj": noobj}
+            "infeas_nested": nested, "ok_noobj": noobj, "ok_obj2": obj2}
 
 
 def nl_text(m, tmp):
@@ -61,6 +62,8 @@ def concretise(s, models, texts, bigm_opts, rnd):
         c["no_nl"] = True
     if mk == "needbounds":
         c["opts"] += bigm_opts
+    if mk == "ok_obj2":
+        c["opts"] += ["objno=2"]
     c["opts"] += {"none": [], "valid": ["tech:idummy=3"], "unknown": [rnd.choice(["foo=1", "tech:nosuchopt=2", "acc:nothing=0"])],
                   "illtyped": [rnd.choice(["tech:idummy=abc", "objno=x1", "tech:ddummy=1e"])], "objno_range": ["objno=7"],
                   "solcount": ["sol:count=1"], "optfile_self": ["tech:optionfile=self.opt"], "optfile_missing": ["tech:optionfile=nosuchfile.opt"],
@@ -92,8 +95,8 @@ def run(tier):
     mc = tlc("MCDriver", "MCDriver.cfg", cwd=sd, workers=NPROC)
     tlc_must_pass(mc, "MCDriver")
     scen = printed_json(mc, "CASE")
-    if len(scen) != 3606:
-        raise Broken("expected 3606 scenarios, got %d" % len(scen))
+    if len(scen) != 3726:
+        raise Broken("expected 3726 scenarios, got %d" % len(scen))
     scen.sort(key=lambda s: json.dumps(s, sort_keys=True))
     exe = targets.get("h_drv")
     cfgs, acc = cvtcases.configs(exe)
